@@ -307,6 +307,9 @@ func genPubStress(g *genCtx) {
 	}
 	g.newCase("kind=churn")
 	g.op("churn iters=%d pad=300 pubs=4", churn)
+	// a slow OnFiltered callback on one subscriber must not eat into the timeout of the others
+	g.newCase("kind=slowcb")
+	g.op("slowcb msgs=5")
 	for t := 0; t < rounds; t++ {
 		g.newCase("kind=stress")
 		r := g.rng
@@ -339,6 +342,10 @@ func execPubStressCase(x *execCtx) {
 		}
 		toks := strings.Fields(line)
 		f := fields(toks[1:])
+		if toks[0] == "slowcb" {
+			fmt.Fprintf(real, "%s => %s\n", line, pubSlowCallback(atoi(f["msgs"])))
+			continue
+		}
 		if toks[0] == "churn" {
 			fmt.Fprintf(real, "%s => %s\n", line, pubChurn(atoi(f["iters"]), atoi(f["pad"]), atoi(f["pubs"])))
 			continue
@@ -349,6 +356,50 @@ func execPubStressCase(x *execCtx) {
 		}
 		fmt.Fprintf(real, "%s => %s\n", line, pubStress(atoi(f["pubs"]), atoi(f["subs"]), atoi(f["msgs"]), atoi(f["closers"]), uint64(atoi(f["seed"])), atoiOr(f["pclosers"], 0), atoiOr(f["late"], 0), atoiOr(f["zero"], 0), atoiOr(f["selfclose"], 0), atoiOr(f["pad"], 0)))
 	}
+}
+
+// pubSlowCallback: one subscriber rejects everything and its OnFiltered callback takes 700 ms; four others have a 500 ms
+// timeout and are blocked in a receive all the time: each of them gets every message (a subscriber's timeout runs from the
+// moment its delivery can start, not from the moment Publish was entered) and no OnTimeout fires.
+func pubSlowCallback(M int) string {
+	p := publisher.NewPublication[int]()
+	p.Subscribe(0, publisher.WithFilter(func(int) bool { return false }), publisher.OnFiltered(func(int) { time.Sleep(700 * time.Millisecond) }))
+	const N = 4
+	var timeouts atomic.Int64
+	got := make([][]int, N)
+	var wg sync.WaitGroup
+	for i := 0; i < N; i++ {
+		s := p.Subscribe(0, publisher.WithTimeout[int](500*time.Millisecond), publisher.OnTimeout(func(int) { timeouts.Add(1) }))
+		wg.Add(1)
+		go func(i int) {
+			defer wg.Done()
+			for v := range s.Receive() {
+				got[i] = append(got[i], v)
+			}
+		}(i)
+	}
+	time.Sleep(20 * time.Millisecond) // the receivers are parked
+	for m := 1; m <= M; m++ {
+		p.Publish(m)
+	}
+	settle("toolchest/publisher.", func() int64 { return 0 }, 10*time.Second)
+	p.Close()
+	wg.Wait()
+	missing, dup := 0, 0
+	for i := range got {
+		seen := map[int]int{}
+		for _, v := range got[i] {
+			seen[v]++
+		}
+		for m := 1; m <= M; m++ {
+			if seen[m] == 0 {
+				missing++
+			} else if seen[m] > 1 {
+				dup++
+			}
+		}
+	}
+	return fmt.Sprintf("dup=%d foreign=0 rejected=0 missing=%d left=0 unclosed=0 timeouts=%d %s", dup, missing, timeouts.Load(), raceObs())
 }
 
 // pubChurn: a message published after Subscribe has returned reaches the new subscriber, however often subscribers come
@@ -474,6 +525,15 @@ func pubStress(P, S, M, closers int, seed uint64, pclosers, late, zero, selfclos
 			selfFired.Add(1)
 			selfSubs[i].Close()
 		}))
+	}
+	// a subscriber whose OnFiltered callback calls back into the library: it closes the subscriber that rejected the message
+	if selfclose > 0 {
+		var fsub *publisher.Subscriber[int]
+		var once sync.Once
+		fsub = p.Subscribe(1, publisher.WithFilter(func(int) bool { return false }), publisher.OnFiltered(func(int) {
+			once.Do(func() { fsub.Close() })
+		}))
+		selfSubs = append(selfSubs, fsub)
 	}
 	var wgR, wgP sync.WaitGroup
 	for _, sr := range subs {
